@@ -451,7 +451,7 @@ PROPS["C17"] = {
         "parsing (a malformed config diverges); which symbol wins when several extern symbols share a name. Trusted: shim/reachcheck.rs (petgraph graph.edges(a) = "
         "exactly the outgoing edges with index, endpoints, weight; key model for NodeIndex so that vstd's HashSet specs apply), shim/reachcheck_checks.rs "
         "(Index<NodeIndex> with 'node exists' as proved precondition, node_indices / edge_references as Vecs, Iterator::any through the closure's ensures, "
-        "deterministic config parse, symbol map chain), find_symbol and the two generate_cwe_warning as @nobody (find_symbol's meaning is proved in unit callsites), "
+        "deterministic config parse, symbol map chain), the two generate_cwe_warning as @nobody; find_symbol is extracted and PROVED in unit reachcheck_243 since round 4 (first, least key, extern symbol with the name; cwe_367 does not call it), "
         "R9 substitutions (`for` with `continue` -> `while let Some(x) = it.next()` over a verified iterator; filter_map/collect -> explicit loop with the closure "
         "body verbatim; panic! -> requires-false call), everything imported with callgraph_build."),
     "design_ref": "DESIGN.md section 13 (C17)",
@@ -467,7 +467,9 @@ PROPS["C17"] = {
     "assumptions": [
         "shim/reachcheck.rs: verif_rc_edges (graph.edges), axiom_rc_node_index_key_model, Hash for NodeIndex",
         "shim/reachcheck_checks.rs: DiGraph Index<NodeIndex>, node_indices / edge_references as Vecs, verif_rc_any, verif_rc_parse_config, verif_rc_never (requires false), RcSymbolMap",
-        "@nobody: find_symbol (None iff no symbol has that name; Some(t): t is the tid field of such a symbol), both generate_cwe_warning (uninterpreted functions of their arguments)",
+        "@nobody: both generate_cwe_warning (uninterpreted functions of their arguments; format! / to_string have no vstd postcondition)",
+        "HYPOTHESIS rc_tid_ord_hyp() = vstd::laws_cmp::obeys_cmp::<Tid>() on find_symbol and cwe_243::check_cwe (vstd states BTreeMap::iter under it)",
+        "shim/reachcheck_findsym.rs: assume_specification of <&str as PartialEq<String>>::eq (equality of the characters); R9 in find_symbol: `M.iter().find(|(A, B)| BODY)` -> flag loop with BODY verbatim (as in unit callsites)",
         "R9 substitutions listed in the unit headers",
         "HYPOTHESIS rc367_pre (cwe_367 only): the target of every reporting ExternCallStub edge is a BlkStart node",
         "everything imported with callgraph_build / callgraph / bitvector",
